@@ -45,4 +45,6 @@ func C01(c *Ctx) {
 	atomicInsertRule(c, "C01.atomicInsert", poolInserts)
 	pairRule(c, "C01.paired", poolPairs)
 	c01Witness(c)
+	// the epoch allocator's owner map must not outlive a slot's freeness (else a second subscriber takes the slot)
+	sweepAfterAdvance(c, "C01.epochSweep")
 }
